@@ -73,7 +73,12 @@ class TrafficRate(ExtendedCommunity):
         return value
 
     def __repr__(self) -> str:
-        return 'rate-limit:%d' % self.rate
+        # the rate is an IEEE float chosen by the peer: NaN and the infinities have no integer rendering and
+        # '%d' raised ValueError / OverflowError out of str() and json() of a route which had decoded
+        rate = self.rate
+        if rate != rate or rate in (float('inf'), float('-inf')):
+            return 'rate-limit:%s' % rate
+        return 'rate-limit:%d' % rate
 
     @classmethod
     def unpack_attribute(cls, data: Buffer, negotiated: Negotiated | None = None) -> TrafficRate:
@@ -111,7 +116,10 @@ class TrafficRatePackets(ExtendedCommunity):
         return max(value, 0.0)
 
     def __repr__(self) -> str:
-        return 'rate-limit:%d:packets' % self.rate
+        rate = self.rate
+        if rate != rate or rate in (float('inf'), float('-inf')):
+            return 'rate-limit:%s:packets' % rate
+        return 'rate-limit:%d:packets' % rate
 
     @classmethod
     def unpack_attribute(cls, data: Buffer, negotiated: Negotiated | None = None) -> TrafficRatePackets:
